@@ -15,7 +15,8 @@ EXPLANATION = (
     " (f) Only an expired PTR or an emptied SRV vector puts an instance into the removal set, and the eviction results reach the notifiers whole (no truncating adapter)."
     " (g) The host names evict_expired_addr reports are the expired records' own names. (h) Expiry times only move forward outside reset_ttl. (i) The walk over the PTR names in evict_expired_services removes no key from DnsCache.srv, so an expired SRV is reported under every type and subtype that lists the instance."
     " (j) ServiceEvent sends are lossless."
-    " (k) exec_command_verify reaches service_verify_queries on every path. (l) Every answer of a response reaches add_or_update (shared with C03i).")
+    " (k) exec_command_verify reaches service_verify_queries on every path. (l) Every answer of a response reaches add_or_update (shared with C03i)."
+    " (m) verify shortens no PTR record (a shared record is known-answer-suppressed and cannot be re-confirmed). (n) as C03j.")
 UNDECIDED = ["time of delivery of ServiceRemoved relative to the TTL", "'not before' (no spurious removal) over histories",
              "duplicates across histories"]
 
@@ -356,6 +357,9 @@ def run(ctx, P):
     r2.events_are_lossless(ctx, P, "C05j")
     r2.verify_always_shortens(ctx, P, "C05k")
     r2.every_answer_reaches_the_cache(ctx, P, "C05l")
+    from . import r4
+    r4.verify_disputes_unique_records_only(ctx, P, "C05m")
+    r4.cached_names_updated_whatever_is_for_us(ctx, P, "C05n")
     clause_f(ctx, P)
     clause_ab(ctx, P)
     clause_c(ctx, P)
